@@ -81,6 +81,12 @@ ReadHeader(sealed, wellFormed, ret, es2) ==
 Rewind(es2) == /\ atStart' = (phase = "fresh") /\ es' = es2 /\ es2 <= es
                /\ UNCHANGED <<prepT, prepD, prepL, phase>>
 
+\* the caller initialises the same context for reading again (zck_init_adv_read on the same descriptor) before the lead
+\* is read: the pins already set stay in force
+Reinit(ret, es2) == /\ phase = "fresh" /\ es' = es2
+                    /\ IF es = 2 THEN ret = 0 /\ es2 = 2 ELSE ret = 1 /\ es2 <= es      \* (a context in the fatal state refuses every call)
+                    /\ UNCHANGED <<prepT, prepD, prepL, phase, atStart>>
+
 \* ---- what the property promises
 \* a lead accepted under pinning carries exactly the pinned values
 AcceptedImpliesEqual == phase \in {"lead", "open"} => Matches
